@@ -3,7 +3,7 @@
    = w workers, size bound m (0 = none), wrapper mode md, Poll re-checks the cancel channel (rc), Shutdown always
    broadcasts (bc).  [run s labels] executes an arbitrary schedule of client calls, clock ticks and worker steps. *)
 From Coq Require Import NArith List Bool Relations.
-From Verif.C18_Timed Require Import Model Heap Micro Proofs Witness Progress TaskExec Fair.
+From Verif.C18_Timed Require Import Model Heap Micro Proofs Witness Progress TaskExec Fair Window.
 Import ListNotations.
 
 (* For every configuration (also the pinned variants) and every schedule: a value is never delivered before its
@@ -46,6 +46,48 @@ Theorem C18_refuted_cancel_late :
   exists ls, cancel_honoured 0 (log (run (init 1 0 IfOwn false true) ls)) = false.
 Proof. exists (d18c 1). exact (proj2 refuted_cancel_late_pinned). Qed.
 
+(* The window between a select of Poll and the return of the value (worker state [WChosen x]: the select has taken the
+   timer case, or the ctx case with IgnorePendingTimeouts; the cancel channel has not been re-checked yet).  All the
+   theorems above quantify over schedules that run client calls inside this window; explicitly: for ALL schedules ls1
+   that bring worker i into the window with element x (repaired Poll), a Cancel() of x that completes there leaves the
+   worker in the window (close(cancel) wakes nobody), the worker's next step - whatever the choice - is the skip, and no
+   continuation ls2 ever delivers x. *)
+Theorem C18_cancel_in_window : forall w m md bc ls1 ls2 i x c,
+  let s := run (init w m md true bc) ls1 in
+  nth_error (workers s) i = Some (WChosen x) ->
+  let s' := step s (LCancel (eid x)) in
+  nth_error (workers s') i = Some (WChosen x) /\
+  (let s'' := step s' (LWorker i c) in
+   log s'' = ESkip (eid x) :: log s' /\ nth_error (workers s'') i = Some WIdle) /\
+  exists l, log (run s' ls2) = l ++ log s' /\ forall a, ~ In (EDeliver (eid x) a) l.
+Proof. exact cancel_in_window_run. Qed.
+
+(* non-vacuity: a schedule reaches the window; without the re-check on the return path (rc = false) the element is
+   delivered (stamp 11) after its Cancel completed (stamp 10); with it, it is skipped *)
+Theorem C18_refuted_cancel_in_window :
+  exists ls, let s1 := run (init 1 0 IfOwn false true) (firstn 4 ls) in
+  workers s1 = [WChosen (mkE 0 5%N None)] /\
+  nth 4 ls (LTick 0) = LCancel 0 /\
+  cancel_honoured 0 (log (run (init 1 0 IfOwn false true) ls)) = false.
+Proof.
+  exists cancel_in_window. destruct refuted_cancel_in_window_pinned as (A & B & C).
+  split; [exact A|]. split; [reflexivity|]. rewrite B in C. rewrite B. exact C.
+Qed.
+
+Example C18_cancel_in_window_nonvacuous :
+  let s1 := run (init 1 0 IfOwn true true) (firstn 4 cancel_in_window) in
+  let s := run (init 1 0 IfOwn true true) cancel_in_window in
+  workers s1 = [WChosen (mkE 0 5%N None)] /\
+  log s = [ESkip 0; ECancel 0 false 10%N; EAdd 0 5%N None 0%N] /\ workers s = [WIdle] /\ delivered (log s) = [].
+Proof. exact regression_cancel_in_window_repaired. Qed.
+
+(* the step of the model out of the window is guarded by "x is due, or Shutdown with IgnorePendingTimeouts was called";
+   in every reachable state of every configuration the guard is true: the step is exactly Poll's re-check + return *)
+Theorem C18_window_guard_always_true : forall w m md rc bc ls i x,
+  let s := run (init w m md rc bc) ls in
+  nth_error (workers s) i = Some (WChosen x) -> is_due s x || (shut s && fignore s) = true.
+Proof. intros w m md rc bc ls i x s H. exact (chosen_ok_run w m md rc bc ls i x H). Qed.
+
 (* "No reachable stuck state with an undelivered, uncancelled, undropped element": in every reachable state of the
    repaired code with at least one worker, if an element is pending (in the heap or held by a worker that has not
    decided yet), some worker can take a step, possibly after the clock has advanced. *)
@@ -68,7 +110,7 @@ Theorem C18_eventually_once_fair : forall w m md rc bc ls (f : sched), 0 < w ->
     all_delivered (log s') = true.
 Proof. exact fair_delivery. Qed.
 
-(* the variant behind it, for ANY state: [mu] = 8 per heap element + the rank of every worker state never increases on
+(* the variant behind it, for ANY state: [mu] = 9 per heap element + the rank of every worker state never increases on
    a tick, and a worker step either changes nothing at all or strictly decreases it *)
 Theorem C18_measure_decreases : forall s l, internal l = true ->
   mu (step s l) <= mu s /\ (forall w c, l = LWorker w c -> step s l = s \/ mu (step s l) < mu s).
@@ -78,9 +120,9 @@ Proof. exact measure_decreases. Qed.
    concrete state with two dropped, one cancelled, one popped and one queued element it delivers the remaining two *)
 Example C18_fair_nonvacuous :
   (forall w s, 0 < w -> fair w s (round_robin w 0)) /\
-  mu fair_demo = 16 /\ all_delivered (log fair_demo) = false /\
+  mu fair_demo = 18 /\ all_delivered (log fair_demo) = false /\
   (let s' := run fair_demo (prefix (round_robin 2 0) 30) in
-   waiting s' = [] /\ workers s' = [WWait; WWait] /\ delivered (log s') = [(0, 6%N); (1, 3%N)] /\
+   waiting s' = [] /\ workers s' = [WWait; WWait] /\ delivered (log s') = [(0, 8%N); (1, 5%N)] /\
    all_delivered (log s') = true /\ mu s' = 0).
 Proof. exact fair_nonvacuous. Qed.
 
@@ -183,6 +225,9 @@ Print Assumptions C18_cancel_honoured.
 Print Assumptions C18_cancelled_never_delivered.
 Print Assumptions C18_cancel_closes.
 Print Assumptions C18_refuted_cancel_late.
+Print Assumptions C18_cancel_in_window.
+Print Assumptions C18_refuted_cancel_in_window.
+Print Assumptions C18_window_guard_always_true.
 Print Assumptions C18_eventually_once_progress.
 Print Assumptions C18_eventually_once_fair.
 Print Assumptions C18_measure_decreases.
